@@ -24,6 +24,7 @@
   panics at the 65th type).  `mask64_set_ge` shows what happens beyond: the shift yields 0.
 -/
 import Ark.Proofs.MaskWidth
+import Ark.Props.C20Words
 
 namespace Ark.Props.C20
 open Ark Ark.Mask64
@@ -241,5 +242,70 @@ example : Pred64.entity d64 (Mask64.ofList [3, 63]) = true := by decide
 example : Pred.entity (d64.embed true) (Mask.ofList [3, 63]) = true := by decide
 example : Pred64.entity d64 (Mask64.ofList [3, 63, 5]) = false := by decide
 example : Pred.entity (d64.embed true) (Mask.ofList [3, 63, 5]) = false := by decide
+
+
+/-! ## the word-level mask code of both builds (regenerated from mask256.go / mask64.go) computes the
+    model's mask operations; `Get` of the 64-bit mask needs `bit < 64` (the tiny registry is full at 64) -/
+
+theorem words_mask256_abs_injective : type_of% @Ark.Props.C20Words.mask256_abs_injective := @Ark.Props.C20Words.mask256_abs_injective
+
+theorem words_mask256_get_inRange : type_of% @Ark.Props.C20Words.mask256_get_inRange := @Ark.Props.C20Words.mask256_get_inRange
+
+theorem words_mask256_set_inRange : type_of% @Ark.Props.C20Words.mask256_set_inRange := @Ark.Props.C20Words.mask256_set_inRange
+
+theorem words_mask256_clear_inRange : type_of% @Ark.Props.C20Words.mask256_clear_inRange := @Ark.Props.C20Words.mask256_clear_inRange
+
+theorem words_mask256_get : type_of% @Ark.Props.C20Words.mask256_get := @Ark.Props.C20Words.mask256_get
+
+theorem words_mask256_set : type_of% @Ark.Props.C20Words.mask256_set := @Ark.Props.C20Words.mask256_set
+
+theorem words_mask256_clear : type_of% @Ark.Props.C20Words.mask256_clear := @Ark.Props.C20Words.mask256_clear
+
+theorem words_mask256_not : type_of% @Ark.Props.C20Words.mask256_not := @Ark.Props.C20Words.mask256_not
+
+theorem words_mask256_orI : type_of% @Ark.Props.C20Words.mask256_orI := @Ark.Props.C20Words.mask256_orI
+
+theorem words_mask256_reset : type_of% @Ark.Props.C20Words.mask256_reset := @Ark.Props.C20Words.mask256_reset
+
+theorem words_mask256_isZero : type_of% @Ark.Props.C20Words.mask256_isZero := @Ark.Props.C20Words.mask256_isZero
+
+theorem words_mask256_contains : type_of% @Ark.Props.C20Words.mask256_contains := @Ark.Props.C20Words.mask256_contains
+
+theorem words_mask256_containsAny : type_of% @Ark.Props.C20Words.mask256_containsAny := @Ark.Props.C20Words.mask256_containsAny
+
+theorem words_mask256_equals : type_of% @Ark.Props.C20Words.mask256_equals := @Ark.Props.C20Words.mask256_equals
+
+theorem words_mask256_totalBitsSet : type_of% @Ark.Props.C20Words.mask256_totalBitsSet := @Ark.Props.C20Words.mask256_totalBitsSet
+
+theorem words_mask256_ofIDs : type_of% @Ark.Props.C20Words.mask256_ofIDs := @Ark.Props.C20Words.mask256_ofIDs
+
+theorem words_mask64_abs_injective : type_of% @Ark.Props.C20Words.mask64_abs_injective := @Ark.Props.C20Words.mask64_abs_injective
+
+theorem words_mask64_get : type_of% @Ark.Props.C20Words.mask64_get := @Ark.Props.C20Words.mask64_get
+
+theorem words_mask64_get_out_of_range : type_of% @Ark.Props.C20Words.mask64_get_out_of_range := @Ark.Props.C20Words.mask64_get_out_of_range
+
+theorem words_mask64_set : type_of% @Ark.Props.C20Words.mask64_set := @Ark.Props.C20Words.mask64_set
+
+theorem words_mask64_clear : type_of% @Ark.Props.C20Words.mask64_clear := @Ark.Props.C20Words.mask64_clear
+
+theorem words_mask64_not : type_of% @Ark.Props.C20Words.mask64_not := @Ark.Props.C20Words.mask64_not
+
+theorem words_mask64_orI : type_of% @Ark.Props.C20Words.mask64_orI := @Ark.Props.C20Words.mask64_orI
+
+theorem words_mask64_reset : type_of% @Ark.Props.C20Words.mask64_reset := @Ark.Props.C20Words.mask64_reset
+
+theorem words_mask64_isZero : type_of% @Ark.Props.C20Words.mask64_isZero := @Ark.Props.C20Words.mask64_isZero
+
+theorem words_mask64_contains : type_of% @Ark.Props.C20Words.mask64_contains := @Ark.Props.C20Words.mask64_contains
+
+theorem words_mask64_containsAny : type_of% @Ark.Props.C20Words.mask64_containsAny := @Ark.Props.C20Words.mask64_containsAny
+
+theorem words_mask64_equals : type_of% @Ark.Props.C20Words.mask64_equals := @Ark.Props.C20Words.mask64_equals
+
+theorem words_mask64_totalBitsSet : type_of% @Ark.Props.C20Words.mask64_totalBitsSet := @Ark.Props.C20Words.mask64_totalBitsSet
+
+theorem words_mask64_ofIDs : type_of% @Ark.Props.C20Words.mask64_ofIDs := @Ark.Props.C20Words.mask64_ofIDs
+
 
 end Ark.Props.C20
